@@ -35,10 +35,14 @@ type Fault struct {
 	Rlimit    *int64   `json:"rlimit_fsize,omitempty"` // RLIMIT_FSIZE of the probe process: the kernel fails the copy with EFBIG after that many bytes
 	RenameErr string   `json:"rename_error,omitempty"` // strace: every rename/renameat/renameat2 fails with this errno (EXDEV forces the copy fallback on one FS)
 	Inject    []string `json:"inject,omitempty"`       // strace -e inject= expressions, e.g. "copy_file_range:error=ENOSPC:when=1"
-	PathOnly  string   `json:"path_only,omitempty"`    // "src" | "dst": strace -P, only syscalls touching that path are traced and tampered with
+	PathOnly  string   `json:"path_only,omitempty"`    // "src" | "dst" | "both": strace -P, only syscalls touching that path are traced and tampered with
+
+	enumerate bool // not a fault: trace every syscall of sweepSyscalls (used to list the injection points)
 }
 
-func (f *Fault) needsStrace() bool { return f != nil && (f.RenameErr != "" || len(f.Inject) > 0) }
+func (f *Fault) needsStrace() bool {
+	return f != nil && (f.RenameErr != "" || len(f.Inject) > 0 || f.enumerate)
+}
 
 func (f *Fault) String() string {
 	if f == nil {
@@ -89,9 +93,18 @@ type Case struct {
 	// file systems are equal): "<side>:<form>:<suffix>", side "src" = the source is named after
 	// the destination, "dst" = the destination is named after the source; form "plain" =
 	// name+suffix, "hidden" = "."+name+suffix. E.g. "src:plain:.tmp" is CopyFile("data.bin.tmp", "data.bin").
-	Rel   string `json:"rel,omitempty"`
-	Fault *Fault `json:"fault,omitempty"`
-	Seed  int64  `json:"seed"` // content seed
+	Rel string `json:"rel,omitempty"`
+	// Name: style of both base names ("" | "space" | "unicode" | "newline" | "long" | "dash" | "meta").
+	Name string `json:"name,omitempty"`
+	// Spell: how the path handed to glb is spelled ("" | "dst-slash" | "dst-dotdot" | "dst-dslash" |
+	// "dst-dot" | "src-slash" | "src-dotdot" | "src-dslash" | "both-dotdot"); observed through the plain path.
+	Spell string `json:"spell,omitempty"`
+	// Conc > 0: Conc goroutines perform Rounds calls each at the same time, on distinct files
+	// that share one source and one destination directory (see runConcurrent).
+	Conc   int    `json:"conc,omitempty"`
+	Rounds int    `json:"rounds,omitempty"`
+	Fault  *Fault `json:"fault,omitempty"`
+	Seed   int64  `json:"seed"` // content seed
 }
 
 // suffixes a careless implementation might use for a temporary / backup sibling
@@ -149,12 +162,18 @@ func applicable(cs Case) bool {
 		if _, _, ok := relNames(cs.Rel); !ok {
 			return false
 		}
-		return cs.Src == "present" && (cs.Dst == "missing" || cs.Dst == "shorter" || cs.Dst == "longer")
+		return cs.Name == "" && cs.Spell == "" && cs.Conc == 0 && cs.Src == "present" && (cs.Dst == "missing" || cs.Dst == "shorter" || cs.Dst == "longer")
+	}
+	if cs.Spell != "" && (isAlias(cs.Dst) || cs.Rel != "") {
+		return false
+	}
+	if cs.Conc > 0 {
+		return cs.Src == "present" && (cs.Dst == "missing" || cs.Dst == "longer") && cs.Fault == nil && cs.Spell == "" && cs.Rel == ""
 	}
 	switch cs.Dst {
-	case "alias-same", "alias-dot", "alias-dotdot", "alias-hardlink", "alias-relsymlink":
+	case "alias-same", "alias-dot", "alias-dotdot", "alias-hardlink", "alias-relsymlink", "alias-hardlink-chain":
 		return same && cs.Src == "present"
-	case "alias-symlink", "alias-chain", "alias-dirsymlink":
+	case "alias-symlink", "alias-chain", "alias-dirsymlink", "alias-chain-xfs":
 		return cs.Src == "present"
 	case "devfull":
 		// /dev/full (or any path outside the work dirs) is never handed to the code under test:
@@ -170,10 +189,20 @@ func (cs Case) id() string {
 }
 
 func (cs Case) relTag() string {
-	if cs.Rel == "" {
-		return ""
+	t := ""
+	if cs.Rel != "" {
+		t += "[" + cs.Rel + "]"
 	}
-	return "[" + cs.Rel + "]"
+	if cs.Name != "" {
+		t += "[name=" + cs.Name + "]"
+	}
+	if cs.Spell != "" {
+		t += "[spell=" + cs.Spell + "]"
+	}
+	if cs.Conc > 0 {
+		t += fmt.Sprintf("[conc=%dx%d]", cs.Conc, cs.Rounds)
+	}
+	return t
 }
 
 func (cs Case) fsRel() string {
@@ -398,9 +427,11 @@ func takeSnap(path string, limit int64) snap {
 }
 
 type layout struct {
-	src, dst string
-	dirs     []string
-	allowNew []string // paths a successful call may legitimately create besides dst
+	src, dst string // handed to glb
+	// srcObs, dstObs: the same files under their plain spelling, used for the snapshots
+	srcObs, dstObs string
+	dirs           []string
+	allowNew       []string // paths a successful call may legitimately create besides dst
 }
 
 // listing returns every path below the case directories.
@@ -451,9 +482,30 @@ func (e *env) build(cs Case) (*layout, error) {
 	}
 	must(os.MkdirAll(sdir, 0o755))
 	must(os.MkdirAll(ddir, 0o755))
-	data := content(cs.Seed, cs.Size)
-	l.src = filepath.Join(sdir, "src.bin")
-	dstName := "dst.bin"
+	var data []byte
+	if cs.Src != "sparse" {
+		data = content(cs.Seed, cs.Size)
+	}
+	srcName, dstName := styled("src.bin", cs.Name), styled("dst.bin", cs.Name)
+	l.src = filepath.Join(sdir, srcName)
+	// a directory on the file system the destination is NOT on (symlinks across file systems)
+	otherDir := func() (string, bool) {
+		o := "root"
+		if cs.DstFS == "root" {
+			o = "shm"
+		}
+		r, ok := e.roots[o]
+		if !ok {
+			return "", false
+		}
+		d := filepath.Join(r, fmt.Sprintf("c%d", n))
+		if d != cdS && d != cdD {
+			l.dirs = append(l.dirs, d)
+		}
+		d = filepath.Join(d, "o")
+		must(os.MkdirAll(d, 0o755))
+		return d, true
+	}
 	if cs.Rel != "" {
 		sn, dn, ok := relNames(cs.Rel)
 		if !ok {
@@ -473,9 +525,23 @@ func (e *env) build(cs Case) (*layout, error) {
 		real = filepath.Join(sdir, "real.bin")
 		must(os.WriteFile(real, data, 0o644))
 		must(os.Symlink(real, l.src))
+	case "sparse":
+		must(writeSparse(l.src, cs.Seed, cs.Size))
+	case "hardlinked": // the source has a second name
+		must(os.WriteFile(l.src, data, 0o644))
+		must(os.Link(l.src, filepath.Join(sdir, "second-name.bin")))
+	case "symlink-xfs": // srcPath is a symlink whose file lives on the other file system
+		od, ok := otherDir()
+		if !ok {
+			return l, errNoFS
+		}
+		real = filepath.Join(od, "real.bin")
+		must(os.WriteFile(real, data, 0o644))
+		must(os.Symlink(real, l.src))
 	default:
 		return l, fmt.Errorf("unknown source kind %q", cs.Src)
 	}
+	_ = real
 	l.dst = filepath.Join(ddir, dstName)
 	other := func(n int) []byte { return content(cs.Seed^0x5eed5eed, n) }
 	switch cs.Dst {
@@ -487,10 +553,10 @@ func (e *env) build(cs Case) (*layout, error) {
 	case "dir":
 		must(os.Mkdir(l.dst, 0o755))
 	case "parent-missing":
-		l.dst = filepath.Join(ddir, "nodir", "dst.bin")
+		l.dst = filepath.Join(ddir, "nodir", dstName)
 	case "parent-file":
 		must(os.WriteFile(filepath.Join(ddir, "afile"), other(10), 0o644))
-		l.dst = filepath.Join(ddir, "afile", "dst.bin")
+		l.dst = filepath.Join(ddir, "afile", dstName)
 	case "symlink-other":
 		o := filepath.Join(ddir, "other.bin")
 		must(os.WriteFile(o, other(cs.Size+1000), 0o644))
@@ -498,17 +564,69 @@ func (e *env) build(cs Case) (*layout, error) {
 	case "dangling-symlink":
 		must(os.Symlink(filepath.Join(ddir, "nothing.bin"), l.dst))
 		l.allowNew = append(l.allowNew, filepath.Join(ddir, "nothing.bin"))
+	case "equal": // same length, other content
+		must(os.WriteFile(l.dst, other(cs.Size), 0o644))
+	case "same-content": // another file that already holds the same bytes
+		if cs.Src == "sparse" {
+			must(writeSparse(l.dst, cs.Seed, cs.Size))
+		} else {
+			must(os.WriteFile(l.dst, data, 0o644))
+		}
+	case "readonly":
+		must(os.WriteFile(l.dst, other(cs.Size+1000), 0o444))
+	case "dir-nonempty":
+		must(os.Mkdir(l.dst, 0o755))
+		must(os.WriteFile(filepath.Join(l.dst, "inside"), other(10), 0o644))
+	case "symlink-dir":
+		must(os.Mkdir(filepath.Join(ddir, "adir"), 0o755))
+		must(os.Symlink(filepath.Join(ddir, "adir"), l.dst))
+	case "symlink-loop":
+		must(os.Symlink(l.dst, l.dst))
+	case "symlink-chain-other":
+		o := filepath.Join(ddir, "other.bin")
+		must(os.WriteFile(o, other(cs.Size+1000), 0o644))
+		must(os.Mkdir(filepath.Join(ddir, "sub"), 0o755))
+		must(os.Symlink(o, filepath.Join(ddir, "sub", "l3")))
+		must(os.Symlink("sub/l3", filepath.Join(ddir, "l2")))
+		must(os.Symlink(filepath.Join(ddir, "l2"), l.dst))
+	case "symlink-xfs-other": // destination is a symlink to a file on the other file system
+		od, ok := otherDir()
+		if !ok {
+			return l, errNoFS
+		}
+		o := filepath.Join(od, "other.bin")
+		must(os.WriteFile(o, other(cs.Size+1000), 0o644))
+		must(os.Symlink(o, l.dst))
+	case "symlink-xfs-dangling":
+		od, ok := otherDir()
+		if !ok {
+			return l, errNoFS
+		}
+		must(os.Symlink(filepath.Join(od, "nothing.bin"), l.dst))
+		l.allowNew = append(l.allowNew, filepath.Join(od, "nothing.bin"))
+	case "alias-hardlink-chain": // symlink -> hard link (in a nested directory) of the source
+		must(os.MkdirAll(filepath.Join(ddir, "x", "y"), 0o755))
+		hl := filepath.Join(ddir, "x", "y", "hl.bin")
+		must(os.Link(l.src, hl))
+		must(os.Symlink("x/y/hl.bin", l.dst))
+	case "alias-chain-xfs": // symlink -> symlink on the other file system -> source
+		od, ok := otherDir()
+		if !ok {
+			return l, errNoFS
+		}
+		must(os.Symlink(l.src, filepath.Join(od, "hop")))
+		must(os.Symlink(filepath.Join(od, "hop"), l.dst))
 	case "alias-same":
 		l.dst = l.src
 	case "alias-dot":
-		l.dst = sdir + "/./src.bin"
+		l.dst = sdir + "/./" + srcName
 	case "alias-dotdot":
 		must(os.Mkdir(filepath.Join(sdir, "sub"), 0o755))
-		l.dst = sdir + "/sub/../src.bin"
+		l.dst = sdir + "/sub/../" + srcName
 	case "alias-symlink":
 		must(os.Symlink(l.src, l.dst))
 	case "alias-relsymlink":
-		must(os.Symlink("../s/src.bin", l.dst))
+		must(os.Symlink("../s/"+srcName, l.dst))
 	case "alias-hardlink":
 		must(os.Link(l.src, l.dst))
 	case "alias-chain":
@@ -518,11 +636,89 @@ func (e *env) build(cs Case) (*layout, error) {
 		must(os.Symlink("l2", l.dst))
 	case "alias-dirsymlink":
 		must(os.Symlink(sdir, filepath.Join(ddir, "sl")))
-		l.dst = filepath.Join(ddir, "sl", "src.bin")
+		l.dst = filepath.Join(ddir, "sl", srcName)
 	default:
 		return l, fmt.Errorf("unknown destination kind %q", cs.Dst)
 	}
+	l.srcObs, l.dstObs = l.src, l.dst
+	respell := func(p, how string) string {
+		dir, base := filepath.Dir(p), filepath.Base(p)
+		switch how {
+		case "slash":
+			return p + "/"
+		case "dotdot":
+			return filepath.Dir(dir) + "/" + filepath.Base(dir) + "/../" + filepath.Base(dir) + "/" + base
+		case "dslash":
+			return dir + "//" + base
+		case "dot":
+			return dir + "/./" + base
+		}
+		return p
+	}
+	switch {
+	case cs.Spell == "":
+	case strings.HasPrefix(cs.Spell, "dst-"):
+		l.dst = respell(l.dst, cs.Spell[4:])
+	case strings.HasPrefix(cs.Spell, "src-"):
+		l.src = respell(l.src, cs.Spell[4:])
+	case strings.HasPrefix(cs.Spell, "both-"):
+		l.src, l.dst = respell(l.src, cs.Spell[5:]), respell(l.dst, cs.Spell[5:])
+	default:
+		return l, fmt.Errorf("unknown spelling %q", cs.Spell)
+	}
 	return l, firstErr
+}
+
+// styled gives a base name an awkward but legal form.
+func styled(name, style string) string {
+	switch style {
+	case "space":
+		return " sp ace  " + name + " "
+	case "unicode":
+		return "ünï✓文件‮-" + name
+	case "newline":
+		return "nl\nx\ty-" + name
+	case "long":
+		return strings.Repeat("L", 250-len(name)) + name
+	case "dash":
+		return "--" + name
+	case "meta":
+		return "*?[x]$(echo)`'\"&;|<>" + name
+	}
+	return name
+}
+
+// writeSparse creates a file of the given size that is mostly holes.
+func writeSparse(path string, seed int64, size int) error {
+	f, err := os.Create(path)
+	if err != nil {
+		return err
+	}
+	defer f.Close()
+	if err := f.Truncate(int64(size)); err != nil {
+		return err
+	}
+	r := rand.New(rand.NewSource(seed))
+	for i := 0; i < 5 && size > 0; i++ {
+		off := r.Intn(size)
+		n := 1 + r.Intn(3000)
+		if off+n > size {
+			n = size - off
+		}
+		b := make([]byte, n)
+		r.Read(b)
+		if _, err := f.WriteAt(b, int64(off)); err != nil {
+			return err
+		}
+	}
+	if size > 0 { // last byte is data, so the length is not carried by a hole alone in every case
+		if seed%2 == 0 {
+			if _, err := f.WriteAt([]byte{0xA5}, int64(size-1)); err != nil {
+				return err
+			}
+		}
+	}
+	return f.Close()
 }
 
 var errNoFS = fmt.Errorf("file system of the case is not available")
@@ -541,6 +737,8 @@ type outcome struct {
 	renameHits int
 	harness    string // the check (not glb) failed on this case
 	skipped    string
+	// concurrent cases
+	concCalls, concMax, concOverlap int64
 }
 
 // runCase builds the layout, snapshots, performs the call (in process, or in a probe process
@@ -549,6 +747,9 @@ func runCase(cs Case, e *env, oc *outcome) (key, expected, observed string) {
 	if !applicable(cs) {
 		oc.skipped = "not applicable"
 		return
+	}
+	if cs.Conc > 0 {
+		return runConcurrent(cs, e, oc)
 	}
 	l, err := e.build(cs)
 	if l != nil {
@@ -563,8 +764,8 @@ func runCase(cs Case, e *env, oc *outcome) (key, expected, observed string) {
 		return
 	}
 	limit := int64(cs.Size) + 1
-	srcPre := takeSnap(l.src, limit)
-	dstPre := takeSnap(l.dst, limit)
+	srcPre := takeSnap(l.srcObs, limit)
+	dstPre := takeSnap(l.dstObs, limit)
 	if (cs.Src == "missing") != (srcPre.Kind == "missing") || (cs.Src != "missing" && srcPre.Len != int64(cs.Size)) {
 		oc.harness = "layout: source snapshot is " + srcPre.String()
 		return
@@ -589,11 +790,10 @@ func runCase(cs Case, e *env, oc *outcome) (key, expected, observed string) {
 	oc.ran = true
 	oc.nilRet, oc.errText = res.Nil, res.Err
 
-	srcPost := takeSnap(l.src, limit)
-	dstPost := takeSnap(l.dst, limit)
-	oc.srcGone = srcPost.Kind == "missing"
+	srcPost := takeSnap(l.srcObs, limit)
+	dstPost := takeSnap(l.dstObs, limit)
 	if res.Nil {
-		allowed := map[string]bool{l.dst: true, filepath.Clean(l.dst): true}
+		allowed := map[string]bool{l.dst: true, filepath.Clean(l.dstObs): true}
 		for _, a := range l.allowNew {
 			allowed[a] = true
 		}
@@ -603,6 +803,12 @@ func runCase(cs Case, e *env, oc *outcome) (key, expected, observed string) {
 			}
 		}
 	}
+	return judge(cs, res, srcPre, dstPre, srcPost, dstPost, oc)
+}
+
+// judge applies the oracle to one call: snapshots before, result, snapshots after.
+func judge(cs Case, res ProbeResult, srcPre, dstPre, srcPost, dstPost snap, oc *outcome) (key, expected, observed string) {
+	oc.srcGone = srcPost.Kind == "missing"
 	state := fmt.Sprintf("before: source %s, destination %s; after: source %s, destination %s", srcPre, dstPre, srcPost, dstPost)
 
 	if res.Panic != "" {
@@ -660,8 +866,10 @@ type mon struct{}
 
 func (mon) Name() string { return "filecopy" }
 
-func (mon) Level(string) (string, string) {
-	return "fault_enumeration", "complete product of operation {CopyFile, MoveFile} × source size × source {present, missing, symlink to file} × destination {missing, shorter, longer, directory, parent missing, parent is a file, symlink to another file, dangling symlink, and the source itself as same path / ./ / dir/../ / symlink / relative symlink / hard link / symlink chain / through a directory symlink} × placement {root FS, tmpfs, across both (real EXDEV)}, plus a name-related family (source named destination+suffix or dot+destination+suffix and the reverse, in one directory, for 14 temp/backup suffixes; also with MoveFile forced into its fallback), plus an enumerated list of failing steps inside the call (RLIMIT_FSIZE in a probe process; strace tampering: rename→EXDEV or another errno, copy_file_range/read/write/openat/fstat/unlinkat errors at the k-th call, k∈{1,2}); judged by SHA-256+length snapshots before/after; distinct_nontrivial = distinct (op, size, source, destination, placement, fault) tuples with a source present that were really executed"
+func (mon) Level(prop string) (string, string) {
+	return "fault_enumeration", "BOTH TIERS: complete product of operation {CopyFile, MoveFile} × source size × source {present, missing, symlink to file} × destination {missing, shorter, longer, directory, parent missing, parent is a file, symlink to another file, dangling symlink, and the source itself as same path / ./ / dir/../ / symlink / relative symlink / hard link / symlink chain / through a directory symlink} × placement {root FS, tmpfs, across both (real EXDEV)}; a name-related family (source named destination+suffix or dot+destination+suffix and the reverse, in one directory, 14 temp/backup suffixes; also with MoveFile forced into its fallback); an enumerated list of failing steps inside the call (RLIMIT_FSIZE in a probe process; strace tampering: rename→EXDEV or another errno, copy_file_range/read/write/openat/fstat/unlinkat errors at the k-th call, k∈{1,2}). " +
+		"THOROUGH ADDS (deep.go): every size 0..64, ±1 around 4 KiB / 32 KiB / 64 KiB / 1 MiB, 2–32 MiB and sparse sources; sources that are hard-linked or a symlink onto the other file system; destinations of equal length, same content, read-only, non-empty directory, symlink to a directory, symlink loop, symlink chain to another file, symlink to a (missing) file on the other file system, symlink→hard link and symlink→other-FS symlink→source aliases – each for both operations and all four placements; awkward names (spaces, unicode, newline, 250 bytes, leading dashes, shell metacharacters) and path spellings (trailing slash, dir/../dir, //, /./ on either side); a fault sweep that first lists the syscalls of a call on the two paths (strace -P) and then fails EVERY occurrence of each (openat, fstat, newfstatat, copy_file_range, read, write, rename*, unlinkat, …) with each of ENOSPC/EIO/EINTR/EDQUOT/EACCES/ENOMEM, for copy_file_range and for the read/write fallback; RLIMIT_FSIZE at byte 0, 1, size/3, page and buffer boundaries, size-1, size, size+1 (with copy_file_range disabled this yields genuine short write(2) counts); MoveFile forced into its fallback over every source and destination state; 2/8/32 concurrent calls on distinct files in shared directories; seeded random combinations of all dimensions including faults. " +
+		"Never handed to the code under test: device nodes, FIFOs or any path outside the monitor's own temp dirs. Judged by SHA-256+length snapshots before/after; distinct_nontrivial = distinct (op, size, source, destination, placement, name relation/style/spelling, fault, concurrency) tuples with a source present that were really executed"
 }
 
 func (mon) Assumptions(string) []string {
@@ -670,12 +878,16 @@ func (mon) Assumptions(string) []string {
 		"MoveFile returning nil while the source path still exists (rename onto itself / onto a hard link is a kernel no-op) is not a violation as long as the destination holds the content",
 		"strace tampering stands for a failing kernel step; a row whose fault was never reached is listed under observed_sets.faults_not_reached and still judged by the same oracle",
 		"files other than the destination that exist after a nil return (left-over temporaries) are not covered by the statement: counted under nil_returns_leaving_extra_files(metric), not judged",
-		"faults of close(2) and of the destination stat that guards against aliasing are outside the stated quantifier and not injected",
+		"faults of close(2) are not injected (a tampered close is skipped rather than failed, and write-back errors are outside the statement); a failing stat of a destination that aliases the source defeats the same-file guard and is outside the stated quantifier, so stat faults are injected only for destinations that are not the source",
+		"injected short counts (strace retval=) would make the kernel lie about bytes written and are not used; short writes are produced by the kernel itself through RLIMIT_FSIZE",
+		"a FIFO destination is not exercised: a write blocks once the pipe is full and a FIFO cannot hold the content, so the statement does not apply",
+		"EINTR is injected at one occurrence only (Go retries the call); it is never injected permanently",
 	}
 }
 
 type shardArgs struct {
-	Kind  string `json:"kind"` // "plain" | "names" | "rlimit" | "exdev" | "inner"
+	Kind  string `json:"kind"` // "plain" | "names" | "rlimit" | "exdev" | "inner"; thorough only: "deep" | "big" | "spell" | "rlimit-deep" | "exdev-deep" | "sweep" | "conc" | "rand"
+	Count int    `json:"count,omitempty"`
 	SrcFS string `json:"src_fs,omitempty"`
 	DstFS string `json:"dst_fs,omitempty"`
 	Op    string `json:"op,omitempty"`
@@ -709,6 +921,35 @@ func (mon) Plan(prop, tier string, seed int64) []drv.Shard {
 	}
 	for p := 0; p < inParts; p++ {
 		add(fmt.Sprintf("strace-inner-%d", p), shardArgs{Kind: "inner", Part: p, Parts: inParts}, 400)
+	}
+	if tier != "thorough" {
+		return out
+	}
+	// deep exploration (deep.go); generous watchdogs, the work is a fixed list
+	const dog = 7200
+	const sweepParts, randParts, randCount = 64, 16, 6000
+	// longest first
+	for p := 0; p < sweepParts; p++ {
+		add(fmt.Sprintf("sweep-%d", p), shardArgs{Kind: "sweep", Part: p, Parts: sweepParts}, dog)
+	}
+	for p := 0; p < randParts; p++ {
+		add(fmt.Sprintf("rand-%d", p), shardArgs{Kind: "rand", Part: p, Parts: randParts, Count: randCount}, dog)
+	}
+	for p := 0; p < 8; p++ {
+		add(fmt.Sprintf("big-%d", p), shardArgs{Kind: "big", Part: p, Parts: 8}, dog)
+	}
+	for _, pl := range placements {
+		for _, op := range []string{"copy", "move"} {
+			for p := 0; p < 2; p++ {
+				add(fmt.Sprintf("deep-%s-%s-%s-%d", op, pl[0], pl[1], p), shardArgs{Kind: "deep", SrcFS: pl[0], DstFS: pl[1], Op: op, Part: p, Parts: 2}, dog)
+			}
+			add(fmt.Sprintf("spell-%s-%s-%s", op, pl[0], pl[1]), shardArgs{Kind: "spell", SrcFS: pl[0], DstFS: pl[1], Op: op}, dog)
+		}
+		add(fmt.Sprintf("conc-%s-%s", pl[0], pl[1]), shardArgs{Kind: "conc", SrcFS: pl[0], DstFS: pl[1]}, dog)
+	}
+	for p := 0; p < 4; p++ {
+		add(fmt.Sprintf("rlimit-deep-%d", p), shardArgs{Kind: "rlimit-deep", Part: p, Parts: 4}, dog)
+		add(fmt.Sprintf("exdev-deep-%d", p), shardArgs{Kind: "exdev-deep", Part: p, Parts: 4}, dog)
 	}
 	return out
 }
@@ -892,6 +1133,20 @@ func casesFor(tier string, a shardArgs) []Case {
 		all = exdevCases(tier)
 	case "inner":
 		all = innerCases(tier)
+	case "deep":
+		all = deepCases(a)
+	case "big":
+		all = bigCases()
+	case "spell":
+		return spellCases(a)
+	case "rlimit-deep":
+		all = rlimitDeepCases()
+	case "exdev-deep":
+		all = exdevDeepCases()
+	case "sweep":
+		all = sweepBases()
+	case "conc":
+		return concCases(a)
 	}
 	var out []Case
 	for i, cs := range all {
@@ -916,17 +1171,37 @@ func (mn mon) Run(sh drv.Shard, c *drv.Ctx) {
 		c.Note(e.shmNote)
 		c.Add("second_fs_unavailable", 1)
 	}
-	cases := casesFor(sh.Tier, a)
-	if a.Kind == "exdev" || a.Kind == "inner" {
+	var cases []Case
+	if a.Kind == "rand" {
+		cases = randCases(sh.Seed, a.Part, a.Count)
+	} else {
+		cases = casesFor(sh.Tier, a)
+	}
+	switch a.Kind {
+	case "exdev", "inner", "exdev-deep", "sweep":
 		if ok, why := straceUsable(e.scratch); !ok {
 			c.Note(fmt.Sprintf("shard %s: strace unusable (%s): %d fault rows skipped", sh.Name, why, len(cases)))
 			c.Add("strace_rows_skipped", int64(len(cases)))
 			return
 		}
+	case "rlimit-deep", "rand":
+		if ok, why := straceUsable(e.scratch); !ok {
+			var keep []Case
+			for _, cs := range cases {
+				if !cs.Fault.needsStrace() {
+					keep = append(keep, cs)
+				}
+			}
+			c.Note(fmt.Sprintf("shard %s: strace unusable (%s): %d fault rows skipped", sh.Name, why, len(cases)-len(keep)))
+			c.Add("strace_rows_skipped", int64(len(cases)-len(keep)))
+			cases = keep
+		}
 	}
 	harnessFailures := 0
-	for i, cs := range cases {
-		cs.Seed = sh.Seed*1000003 + int64(i)*7919 + int64(cs.Size)
+	idx := 0
+	runOne := func(cs Case) {
+		cs.Seed = sh.Seed*1000003 + int64(idx)*7919 + int64(cs.Size)
+		idx++
 		c.Progress(sh.Name+": "+cs.id(), true)
 		var oc outcome
 		k, exp, obs := runCase(cs, e, &oc)
@@ -936,10 +1211,44 @@ func (mn mon) Run(sh drv.Shard, c *drv.Ctx) {
 			if harnessFailures <= 3 {
 				c.Inconclusive("case " + cs.id() + ": " + oc.harness)
 			}
-			continue
+			return
 		}
 		if k != "" {
 			c.Violate(k, cs, exp, obs)
+		}
+	}
+	if a.Kind != "sweep" {
+		for _, cs := range cases {
+			runOne(cs)
+		}
+		return
+	}
+	// sweep: list the syscalls of each base call, then fail each occurrence with each errno
+	for _, base := range cases {
+		base.Seed = sh.Seed*1000003 + int64(idx)*7919 + int64(base.Size)
+		c.Progress(sh.Name+": enumerate "+base.id(), true)
+		counts, order, harness := enumerate(base, e)
+		if harness == errNoFS.Error() || strings.HasSuffix(harness, errNoFS.Error()) {
+			c.Add("skipped: no second file system", 1)
+			continue
+		}
+		if harness != "" {
+			harnessFailures++
+			if harnessFailures <= 3 {
+				c.Inconclusive("enumeration of " + base.id() + ": " + harness)
+			}
+			continue
+		}
+		c.Add("sweep_base_calls_enumerated", 1)
+		total := 0
+		for _, name := range sortedKeys(counts) {
+			total += counts[name]
+			c.MaxOf("sweep_max_occurrences:"+name, int64(counts[name]))
+		}
+		c.MaxOf("sweep_max_syscalls_on_copy_path", int64(total))
+		c.SetAdd("sweep_syscall_sequences", fmt.Sprintf("%s %s %s: %s", base.Op, base.fsRel(), faultClass(base.Fault), strings.Join(order, ",")))
+		for _, cs := range sweepPoints(base, counts, order) {
+			runOne(cs)
 		}
 	}
 }
@@ -955,7 +1264,30 @@ func (mon) record(c *drv.Ctx, cs Case, oc *outcome) {
 	}
 	c.Eval(1)
 	if cs.Src != "missing" {
-		c.DistinctStr(fmt.Sprintf("%s|%d|%s|%s|%s|%s|%s|%s", cs.Op, cs.Size, cs.Src, cs.Dst, cs.SrcFS, cs.DstFS, cs.Rel, cs.Fault.String()))
+		c.DistinctStr(fmt.Sprintf("%s|%d|%s|%s|%s|%s|%s|%s|%s|%s|%d", cs.Op, cs.Size, cs.Src, cs.Dst, cs.SrcFS, cs.DstFS, cs.Rel, cs.Fault.String(), cs.Name, cs.Spell, cs.Conc))
+	}
+	c.SetAdd("sizes_exercised", strconv.Itoa(cs.Size))
+	c.SetAdd("source_states_exercised", cs.Src)
+	c.SetAdd("destination_states_exercised", cs.Dst)
+	if cs.Name != "" {
+		c.Add("awkward_name_calls", 1)
+		c.SetAdd("name_styles_exercised", cs.Name)
+	}
+	if cs.Spell != "" {
+		c.Add("respelled_path_calls", 1)
+		c.SetAdd("path_spellings_exercised", cs.Spell)
+	}
+	if cs.Src == "sparse" {
+		c.Add("sparse_source_calls", 1)
+	}
+	if cs.Size >= 2<<20 {
+		c.Add("calls_with_2MiB_or_more", 1)
+	}
+	if cs.Conc > 0 {
+		c.Eval(oc.concCalls - 1)
+		c.Add("concurrent_calls", oc.concCalls)
+		c.Add("concurrent_calls_overlapping_another", oc.concOverlap)
+		c.MaxOf("concurrent_calls_in_flight", oc.concMax)
 	}
 	cls := "nil"
 	if oc.nilRet {
@@ -991,7 +1323,7 @@ func (mon) record(c *drv.Ctx, cs Case, oc *outcome) {
 		}
 	}
 	if cs.Rel == "" {
-		c.SetAdd("outcomes", fmt.Sprintf("%s %s->%s %s %s => %s", cs.Op, cs.Src, cs.Dst, cs.fsRel(), cs.Fault.keyString(), cls))
+		c.SetAdd("outcomes", fmt.Sprintf("%s %s->%s %s %s => %s", cs.Op, cs.Src, cs.Dst, cs.fsRel(), faultClass(cs.Fault), cls))
 	} else {
 		side := cs.Rel[:strings.IndexByte(cs.Rel, ':')]
 		c.SetAdd("outcomes", fmt.Sprintf("%s %s->%s[%s named after the other, %d suffixes x plain/hidden] %s %s => %s", cs.Op, cs.Src, cs.Dst, side, len(relSuffixes), cs.fsRel(), cs.Fault.keyString(), cls))
@@ -1000,13 +1332,23 @@ func (mon) record(c *drv.Ctx, cs Case, oc *outcome) {
 		c.Add("probe_calls", 1)
 		if cs.Fault.Rlimit != nil {
 			c.Add("rlimit_fault_calls", 1)
+			lim := *cs.Fault.Rlimit
+			switch {
+			case lim == 0:
+				c.Add("rlimit_at_byte_0", 1)
+			case lim < int64(cs.Size):
+				c.Add("rlimit_inside_the_file", 1)
+				c.SetAdd("rlimit_offsets_inside", strconv.FormatInt(lim, 10))
+			default:
+				c.Add("rlimit_at_or_past_the_end", 1)
+			}
 		}
 		if cs.Fault.needsStrace() {
 			c.Add("strace_calls", 1)
 			if cs.Fault.RenameErr != "" {
 				c.Add("rename_forced_to_fail", int64(oc.renameHits))
 				if oc.renameHits == 0 {
-					c.SetAdd("faults_not_reached", cs.Op+" "+cs.Dst+" "+cs.Fault.String())
+					c.SetAdd("faults_not_reached", cs.Op+" "+cs.Dst+" "+faultClass(cs.Fault))
 				}
 			}
 			if len(cs.Fault.Inject) > 0 {
@@ -1014,8 +1356,16 @@ func (mon) record(c *drv.Ctx, cs Case, oc *outcome) {
 				for _, h := range oc.hits {
 					c.Add("injected:"+h, 1)
 				}
+				for _, inj := range cs.Fault.Inject {
+					p := strings.Split(inj, ":")
+					if len(p) == 3 && strings.HasPrefix(p[2], "when=") && len(oc.hits) > 0 {
+						c.SetAdd("injection_points_hit", p[0]+"@"+p[2][5:])
+						c.SetAdd("errnos_injected", strings.TrimPrefix(p[1], "error="))
+					}
+				}
 				if len(oc.hits) == 0 {
-					c.SetAdd("faults_not_reached", cs.Op+" "+cs.Dst+" "+cs.Fault.String())
+					c.Add("faults_not_reached_count", 1)
+					c.SetAdd("faults_not_reached", cs.Op+" "+cs.Dst+" "+faultClass(cs.Fault))
 				}
 			}
 		}
@@ -1040,6 +1390,14 @@ func (mon) Finish(prop, tier string, m *drv.Merged) []string {
 	}
 	if m.Sum["rlimit_fault_calls"] == 0 {
 		inc = append(inc, "no RLIMIT_FSIZE fault row was executed")
+	}
+	if tier == "thorough" {
+		if m.Max["concurrent_calls_in_flight"] < 2 {
+			inc = append(inc, "no two concurrent calls were ever in flight at the same time")
+		}
+		if m.Sum["strace_rows_skipped"] == 0 && m.Sum["sweep_base_calls_enumerated"] < 100 {
+			inc = append(inc, fmt.Sprintf("only %d base calls were enumerated for the every-occurrence fault sweep", m.Sum["sweep_base_calls_enumerated"]))
+		}
 	}
 	return inc
 }
